@@ -502,5 +502,59 @@ def r18_7(ctx):
     return r
 
 
+def r18_8(ctx):
+    """'committed after at most N probation packets': once the number of observed packets has reached the configured
+    window (`total >= prob.max_packets`) a winner is always named - rule 3, the packet majority, has no precondition of
+    its own. Any other test that can end in 'no winner yet' therefore has to sit behind the `total >= max_packets` test,
+    on its false edge: a 'fewer than 3 observations' arm ahead of it stretches a window of 1 or 2 packets to 3, and
+    until then the destination follows whoever sent last."""
+    r = RuleResult("R18.8", "K1", "with the probation window exhausted a winner is always chosen")
+    b = ctx.body(RECEIVE)
+    r.scope.append(RECEIVE)
+
+    def window_open(term, meaning, *_):
+        # total >= max_packets is FALSE (or total < max_packets is TRUE): the window is still open
+        if term[0] == "bin" and term[1] in ("Ge", "Lt", "Gt", "Le") and isinstance(meaning, bool):
+            def has_total(x):
+                return mir.has(x, lambda y: y[0] == "field" and y[2] == "total_packets")
+            def has_max(x):
+                return mir.has(x, lambda y: y[0] == "field" and y[2] == "max_packets")
+            if has_total(term[2]) and has_max(term[3]):
+                return meaning is (term[1] in ("Lt", "Le"))
+            if has_max(term[2]) and has_total(term[3]):
+                return meaning is (term[1] in ("Gt", "Ge"))
+        return False
+    g = core.guard_edges(b, window_open)
+    if not g:
+        raise core.CheckerError("R18.8: the `total >= max_packets` test was not found in receive()")
+    nones = []
+    # locals that carry the winner: `winner` itself and the temporaries moved into it (`winner = if c { a } else { b }`)
+    carriers = {i for i, l in enumerate(b.locals) if l.get("n") == "winner"}
+    for _ in range(2):
+        for bi, si, st in b.assigns():
+            if "p" not in st["p"] and st["p"]["l"] in carriers and st["rv"]["r"] == "use" and "p" in st["rv"]["o"] and "p" not in st["rv"]["o"]["p"]:
+                carriers.add(st["rv"]["o"]["p"]["l"])
+    for bi, si, st in b.assigns():
+        if "p" in st["p"] or st["p"]["l"] not in carriers:
+            continue
+        rv = st["rv"]
+        if rv["r"] == "agg" and rv.get("ak") == "adt" and rv.get("variant") == "None":
+            nones.append((bi, si, "None"))
+    for bi, t, p in b.calls():
+        if "p" not in t["dst"] and t["dst"]["l"] in carriers and p and p.endswith(("::map", "::find", "::find_map", "::and_then", "::filter")):
+            # a search that may come back empty: allowed only while the window is open
+            if mir.has(b.term_call(t), lambda x: x[0] == "call" and x[1].endswith(("::find", "::find_map", "::filter"))):
+                nones.append((bi, None, "search that can be empty"))
+    r.need("places where no winner is named", len(nones), 1)
+    for bi, si, what in nones:
+        if core.k1(b, [bi], g)[bi] is None:
+            r.ok({"site": b.where(bi, si), "no winner": what, "only while": "total < max_packets"})
+        else:
+            r.violate(RECEIVE, "window:no-winner", b.where(bi, si),
+                      "'no winner yet' (%s) can be the outcome although the probation window is exhausted (total >= max_packets): a window "
+                      "of 1 or 2 packets is not honoured and the destination keeps following the last sender" % what)
+    return r
+
+
 def run(ctx):
-    return [r18_1(ctx), r18_2(ctx), r18_3(ctx), r18_4(ctx), r18_5(ctx), r18_6(ctx), r18_7(ctx)]
+    return [r18_1(ctx), r18_2(ctx), r18_3(ctx), r18_4(ctx), r18_5(ctx), r18_6(ctx), r18_7(ctx), r18_8(ctx)]
